@@ -12,6 +12,15 @@ TB = ("Lean 4.33 kernel; axioms ⊆ {propext, Classical.choice, Quot.sound} (aud
 
 # id -> (category, text, design_ref, technique, extra trusted/assumed note)
 CHECKS = {
+    "C10": ("proof",
+            "Lean theorems C10_* (bit/Gray round trips for all widths, one-bit adjacency of successive Gray codes, grid formula, endpoints, box, injectivity, encode∘decode = id, decode∘encode nearest grid point, fixed output length, bits-from-step) over exact rationals; tied to SamplingGrid/GrayCode by exhaustive correspondence over all bit strings of small widths and all small bits-per-variable vectors.",
+            "§6 C10", "Lean 4 proof + exact model/implementation correspondence (exhaustive small widths)", "np.rint ties and float rounding of left+h*k observed at 1e-9, not proved"),
+    "C16": ("proof",
+            "Lean theorems C16_* (any strictly increasing cut points partition; truncated perturbed linspace points are strictly increasing from 0 to pop; n_jobs normalisation lands in [1,pop], 0 rejected; chunked row-wise evaluation reassembled by chunk index equals whole evaluation for every arrival order); tied to _get_n_jobs/_split_population by exact correspondence over ALL (pop_size, n_jobs) pairs up to a bound and by runs with n_jobs>1 under forced worker reorderings.",
+            "§6 C16", "Lean 4 proof of the partition logic + exhaustive correspondence + differential runs (schedules partial)", "joblib returning results in submission order is modelled and observed under forced completion reorderings, not proved"),
+    "C19": ("proof",
+            "Lean theorems C19_* (the coded accumulation loops compute the textbook TP/FN/FP counts; recall, precision, F1, accuracy, confusion matrix equal their definitions for every admissible label vector; r2/mse facts; batch = rows); tied to the numba kernels by exact-rational correspondence exhaustive over all admissible label-vector pairs of small length, plus an independent reference (scikit-learn / formulas).",
+            "§6 C19", "Lean 4 proof + exhaustive small correspondence + independent reference", "sqrt/log are not modelled in Rat: rmse via its square, cross-entropy compared to a float reference (target-clipping gap reported)"),
     "C11": ("proof",
             "Lean theorems C11_* (binary search = first cumulative value ≥ roll, weight/interval measure, rejection sampling, tournament rank, randint/uniform ranges, Sattolo single n-cycle, p-best, min-max) for all vectors and all draws; tied to the code by exact correspondence on exhaustive {0,1,2}^n lattices and by mirrored-draw replay of the stochastic primitives.",
             "§6 C11", "Lean 4 proof + exact model/implementation correspondence (exhaustive small lattices, mirrored RNG draws)", ""),
